@@ -41,6 +41,7 @@ def run_job(args):
 
     def fn(ctx):
         it = Interp()
+        del interps[:]
         interps.append(it)
         return c.fn(ctx, it, cfg)
     r = Run(c.name, fn, timeout_ms=c.timeout_ms or timeout_ms, config_name=cfg.get('name', ''), max_paths=c.max_paths)
@@ -61,6 +62,12 @@ def run_job(args):
     return dict(contract=c.name, config=cfg.get('name', ''), status=r.status, detail=r.detail, paths=r.paths,
                 infeasible=r.infeasible, seconds=time.time() - t0, obligations=obs, files=files, trace=r.trace,
                 targets=c.targets, ci=ci, ki=ki)
+
+
+def job_weight(reg, job):
+    c = reg.contracts[job[1]]
+    cfg = c.configs[job[2]]
+    return cfg.get('weight', cfg.get('P', 1) * cfg.get('E', 1))
 
 
 def clause_id(ob):
@@ -107,10 +114,14 @@ def main(argv=None):
         for j in jobs:
             results.append(run_job(j))
     else:
+        # one fresh process per (contract, configuration): no solver / interpreter state is shared between jobs;
+        # the heaviest jobs are started first
         ctxm = mp.get_context('fork')
-        with ProcessPoolExecutor(max_workers=min(a.jobs, len(jobs)), mp_context=ctxm) as ex:
-            for r in ex.map(run_job, jobs):
-                results.append(r)
+        order = sorted(range(len(jobs)), key=lambda k: -job_weight(reg, jobs[k]))
+        with ctxm.Pool(processes=min(a.jobs, len(jobs)), maxtasksperchild=1) as pool:
+            out = pool.map(run_job, [jobs[k] for k in order], chunksize=1)
+        res = dict(zip(order, out))
+        results = [res[k] for k in range(len(jobs))]
 
     # ---------------------------------------------------------------- collect
     known = load_known(prop)
